@@ -174,7 +174,23 @@ def check(ctx):
         'let f x y = { \'first x, \'second y };\nlet g y x = f y x;\nres /g on get -> <g num str> :: <status=404, (g [num] { \'k bool })>;\n',
     ]
     concat_cases(ctx)
-    evaltie.run(ctx, ps[: (3600 if ctx.thorough else 250)] + [{"mods": {"file:///main.oal": t}, "main": "file:///main.oal"} for t in extra]
+    # a recursive schema instantiated several times inside function bodies: each property holds the instantiation the source names
+    from . import c09
+    ips = [c09.inst_program(ctx.rng) for _ in range(90 if ctx.thorough else 8)]
+    ips.append(("let list x = rec l { 'head x, 'tail [l] };\nlet pair a b = { 'left (list a), 'right (list b) };\nres /inst on get -> <status=404, (pair int str)>;\n",
+                {"404": {("left",): "integer", ("right",): "string"}}))
+    iprogs = [{"mods": {"file:///w/main.oal": src}, "main": "file:///w/main.oal"} for src, _ in ips]
+    for (src, exp), pr, r in zip(ips, iprogs, progs.compile_many(iprogs)):
+        ctx.cov["evaluations"] += 1
+        if r.get("status") != "ok":
+            ctx.violation("a program instantiating a recursive schema is not compiled", {"program": pr}, "ok", str(r.get("msg"))[:200])
+            continue
+        prob = c09.inst_check(r["doc"], exp)
+        if prob:
+            ctx.violation("a property does not hold the schema the source names: " + prob, {"program": pr}, "the declared instantiation", "see message")
+        else:
+            ctx.count("instantiations_in_place")
+    evaltie.run(ctx, ps[: (3600 if ctx.thorough else 250)] + [{"mods": {"file:///main.oal": t}, "main": "file:///main.oal"} for t in extra] + iprogs
                 + evaltie.known_witnesses() + evaltie.repo_corpus())
     res = progs.compile_many(ps)
     seen = set()
